@@ -269,6 +269,11 @@ def run_real(paths):
             res['sorted'] = [[str(f), size(f)] for f in env['files']]
         except OSError as e:
             res['sorted'] = [['<the sort raised %s>' % type(e).__name__, -1]]
+        except (NameError, AttributeError, TypeError, KeyError, IndexError, ValueError) as e:
+            # the statement found in the source cannot be run on its own (its key uses locals computed elsewhere in `snapshot`): the tie on
+            # the order is broken — reported as such by `compare` ("statement not found"), never a crash of the harness
+            res['sorted'] = None
+            res['sort_unrunnable'] = '%s: %s' % (type(e).__name__, str(e)[:120])
     else:
         res['sorted'] = None
     return res
